@@ -96,7 +96,7 @@ def run(chk):
     chk.prove(models=["Model/Machine"])
     rng = chk.rng
     exprs = []
-    n = 70 if chk.tier == "quick" else 700
+    n = 200 if chk.tier == "quick" else 1500
     for i in range(n):
         d = session.scratch_dir()
         try:
